@@ -1,6 +1,9 @@
 package patch
 
-import "unsafe"
+import (
+	"math"
+	"unsafe"
+)
 
 // nopOpcode 空指令插入到原函数开头第一个字节, 用于判断原函数是否已经被 Patch 过
 const nopOpcode byte = 0x90
@@ -25,12 +28,7 @@ func jmpToFunctionValue(_, to uintptr) (value []byte) {
 // jmpToOriginFunctionValue Assembles a jump to a function value
 func jmpToOriginFunctionValue(from, to uintptr) (value []byte) {
 	if relative(from, to) {
-		var dis uint32
-		if to > from {
-			dis = uint32(int32(to-from) - 5)
-		} else {
-			dis = uint32(-int32(from-to) - 5)
-		}
+		dis := uint32(int32(int64(to) - int64(from) - 5))
 
 		return []byte{
 			0xe9,
@@ -56,20 +54,13 @@ func jmpToOriginFunctionValue(from, to uintptr) (value []byte) {
 }
 
 // relative 判断两个指针间隔是否可以用相对地址表示
+// 即放在 from 处的 5 字节 jmp rel32 指令的位移 (to - from - 5) 是否能用 int32 表示
 func relative(from uintptr, to uintptr) bool {
-	delta := int64(from - to)
 	if unsafe.Sizeof(uintptr(0)) == unsafe.Sizeof(int32(0)) {
-		delta = int64(int32(from - to))
+		return true
 	}
-
-	// 跨度大于2G 时
-	relative := delta <= 0x7fffffff
-
-	if delta < 0 {
-		delta = -delta
-		relative = delta <= 0x80000000
-	}
-	return relative
+	dis := int64(to) - int64(from) - 5
+	return dis >= math.MinInt32 && dis <= math.MaxInt32
 }
 
 // checkAlreadyPatch 检测是否已经 patch
